@@ -212,6 +212,13 @@ def proxyLine (line : String) : String :=
   | none => "(model-parse-error)"
   | some (.list [.atom "raceprobe", _]) => "(raceprobe kept)"     -- fixed by ac1225d
   | some (.list [.atom "closeprobe", _]) => "(closeprobe complete)"   -- fixed by aebf686 (half-close)
+  -- resolver-mode sessions in special worlds.  `long`: `Proxy.run` has no resource that a call could use
+  -- up, 150 routed calls are 150 groups; `downup`: `route` keeps (lastIface, address) when connecting
+  -- fails, the same interface is connected to again at the same address; `reset`: a read error from the
+  -- service is `End.error` (exit status 1)
+  | some (.list [.atom "sessprobe", .atom "long"]) => "(sessprobe (answered 150) (exit 0))"
+  | some (.list [.atom "sessprobe", .atom "downup"]) => "(sessprobe (replies notfound ok) (exit 0))"
+  | some (.list [.atom "sessprobe", .atom "reset"]) => "(sessprobe (stops t) (exit 1))"
   | some (.list [.atom "goneprobe", _]) => "(goneprobe stopped)"   -- termination clause: a client that is gone ends the bridge
   | some sx =>
     match parsePCase sx with
@@ -258,6 +265,15 @@ def proxyPred (prop caseLine obsLine : String) : String :=
     if r == "kept" then "ok" else "fail reply-before-close-lost"
   | some (.list [.atom "closeprobe", _]), some (.list [.atom "closeprobe", .atom r]) =>
     if r == "complete" then "ok" else "fail replies-cut-on-client-close"
+  | some (.list [.atom "sessprobe", .atom v]), some o =>
+    let want := match v with
+      | "long" => "(sessprobe (answered 150) (exit 0))"
+      | "downup" => "(sessprobe (replies notfound ok) (exit 0))"
+      | _ => "(sessprobe (stops t) (exit 1))"
+    if render o == want then "ok"
+    else if v == "long" then "fail long-session-not-answered-completely"
+    else if v == "downup" then "fail interface-not-found-after-its-service-came-up"
+    else "fail service-reset-not-reported-as-error"
   | some (.list [.atom "goneprobe", .atom v]), some (.list [.atom "goneprobe", .atom r]) =>
     if r == "stopped" then "ok"
     else if r == "running" then "fail bridge-does-not-stop-when-client-closes-" ++ v
